@@ -1,7 +1,10 @@
 import CnlDriver.CS
+import CnlDriver.FloatIO
 import CnlModel.Parse
 import CnlModel.Elastic
+import CnlModel.Deduce
 import CnlSpec.Token
+import CnlSpec.MakeFraction
 /-!
 `C15` driver table: literals, run-time `parse`, constant-driven deduction.
 
@@ -9,11 +12,15 @@ import CnlSpec.Token
     C15 parse <T> <token>               => <T>:<value>
     C15 lit <c|wide|cnl|cnl2> <token>   => <type>:<rep>:<value> | c(i128):<value>:D<digits> | REJECTED
     C15 mk <function> <c(T)|T> <value>  => <type>:<rep>:<value>
+    C15 fv|fvt <archetype> <c|T> <value> => <type>:<rep>:<value>      from_value (helper function | public trait)
+    C15 ctad fraction <T|f32|f64|f80> <value|hex float> => fr(N,D):<numerator>/<denominator>
+    C15 ctad fraction2 <N> <n> <D> <d>  => fr(N,D):<numerator>/<denominator>
+    C15 ctad <alias> <c|T> <value>      => <type>:<rep>:<value>      alias templates without a deduction guide
 
 The oracle is `CnlSpec.Token` (grammar + positional value) and never looks at the model.
 -/
 namespace Cnl.Drv
-open Cnl Cnl.Parse
+open Cnl Cnl.Parse Cnl.Deduce Cnl.FloatIO
 
 def showParams (p : Params) : String :=
   s!"{if p.isNegative then 1 else 0} {p.base} {p.stride} {p.firstNumeral} {p.numBits} {p.numDigits} {p.numFrac}"
@@ -77,6 +84,56 @@ def holdsExactly (res : String) (want : Rat) : Bool :=
     | none => false
   | none => false
 
+/-- a `wide_tag` in the type: its nominal digit count says nothing about a deduced built-in representation -/
+def hasWd : Ty → Bool
+  | .wd _ _ => true
+  | .ov r _ => hasWd r
+  | .rd r _ => hasWd r
+  | .sc r _ _ => hasWd r
+  | _ => false
+
+/-- `from_value` results: the result denotes exactly `want`, the printed representation type holds the value, and so
+does the digit count of an elastic type -/
+def holdsDeduced (res : String) (want : Rat) : Bool :=
+  match splitMade res with
+  | some (t, rep, v) =>
+    match shape t, parseIntTy rep with
+    | some (d, e, x), some it =>
+      Token.scaledValue v x e == want && it.inRange v &&
+      (match d with
+       | some d => hasWd t || decide (-(2 ^ d : Int) ≤ v ∧ v < 2 ^ d)
+       | none => true)
+    | _, _ => false
+  | none => false
+
+/-- `fr(N,D):<n>/<d>` -/
+def splitFrac (res : String) : Option (IntTy × IntTy × Int × Int) :=
+  match res.splitOn ":" with
+  | [t, nd] => match parseTy t, nd.splitOn "/" with
+    | some (.fr (.int N) (.int D)), [n, d] => do let n ← n.toInt?; let d ← d.toInt?; pure (N, D, n, d)
+    | _, _ => none
+  | _ => none
+
+def clsCtadDefault := "C15.ctad_default_arguments"
+
+def parseAlias : String → Option Alias
+  | "scaled_integer" => some .scaled
+  | "elastic_integer" => some .elastic
+  | "overflow_integer" => some .overflow
+  | "rounding_integer" => some .rounding
+  | "wide_integer" => some .wide
+  | "static_integer" => some .staticInt
+  | _ => none
+
+def parseInit (src v : String) : Option Init := do
+  let v ← v.toInt?
+  if src == "c" then pure (.const v) else do
+    let S ← parseIntTy src
+    if S.inRange v then pure (.val S v) else none
+
+/-- fuel of the `make_fraction` model (as in the C17 table) -/
+def ctadFuel : Nat := 4000
+
 /-- `Cnl.C15.Located` as a Boolean: the scanner found base, sign, stride and exactly the digits of
 the grammar (the hypothesis of the `parse_exact_*_of_located` theorems, proved for every well-formed token by
 `Cnl.C15.located_of_wellFormed` and still evaluated on every token of every run) -/
@@ -92,6 +149,14 @@ def located (cs : List Char) (t : Token.Token) : Bool :=
      | .ok (ds, _) => ds == t.body.digits || (t.body.base == 8 && p.base == 10 && ds == 0 :: t.body.digits)
      | _ => false)
   | _ => false
+
+def checkFv (fvk arch src v res : String) : Option Verdict := do
+  let A ← parseTy arch
+  let init ← parseInit src v
+  let model := showLit showMade (fromValue A init)
+  let kind := match A with
+    | .int _ => "int" | .sc _ _ x => s!"sc{x}" | .el _ _ => "el" | .wd _ _ => "wd" | .ov _ _ => "ov" | .rd _ _ => "rd" | _ => "other"
+  some { model, spec := some (holdsDeduced res (init.value : Rat)), branch := s!"{fvk}/{kind}/{if src == "c" then "c" else "v"}" }
 
 def checkC15 (toks : List String) (res : String) : Option Verdict :=
   match toks with
@@ -173,6 +238,53 @@ def checkC15 (toks : List String) (res : String) : Option Verdict :=
         else some { model, branch := s!"lit/{kind}/unrepresentable", nontrivial := false }
       | none => some { model, branch := s!"lit/{kind}/malformed", nontrivial := false }
     | _ => none
+  | ["fv", arch, src, v] => checkFv "fv" arch src v res
+  | ["fvt", arch, src, v] => checkFv "fvt" arch src v res
+  | ["ctad", "fraction", src, xs] =>
+    match parseIntTy src with
+    | some S => do
+      let v ← xs.toInt?
+      let model := s!"{(fractionGuideInt S).toString}:{v}/1"
+      let ok := match splitFrac res with
+        | some (N, D, n, d) => N.inRange n && D.inRange d && d != 0 && n == v * d
+        | none => false
+      some { model, spec := some ok, branch := s!"ctad/fraction/{src}" }
+    | none => do
+      let F ← parseFmt src
+      let x ← F.ofHex? xs
+      let I ← fractionGuideFloat F.prec
+      let r := MakeFraction.makeFractionX F I x ctadFuel
+      let model := showRes (fun p => s!"{(fractionGuideInt I).toString}:{p.1.num}/{p.1.den}") r
+      -- the guide's promise: a fraction of the deduced type that converts back to the very initializer.  The search
+      -- itself is property C17: inputs in one of its defect classes are not judged here.
+      let c17 : Bool := match MakeFractionSpec.classify F I x ctadFuel with
+        | none => false
+        | some .notExactRoundTrip => false
+        | some _ => true
+      if !MakeFractionSpec.inDomain I x || c17 then
+        some { model, branch := s!"ctad/fraction/{src}/" ++ (if c17 then "c17-class" else "out-of-domain"), nontrivial := false }
+      else
+        let ok := match splitFrac res with
+          | some (N, D, n, d) =>
+            N.inRange n && D.inRange d && decide (0 < d) && fCmp .eq (MakeFraction.fracToF F ⟨n, d⟩) x
+          | none => false
+        some { model, spec := some ok, branch := s!"ctad/fraction/{src}" }
+  | ["ctad", "fraction2", nt, n, dt, d] => do
+    let N ← parseIntTy nt; let D ← parseIntTy dt; let n ← n.toInt?; let d ← d.toInt?
+    let model := s!"{(Ty.fr (.int N) (.int D)).toString}:{n}/{d}"
+    let ok := match splitFrac res with
+      | some (N', D', n', d') => N'.inRange n' && D'.inRange d' && n' == n && d' == d
+      | none => false
+    some { model, spec := some ok, branch := "ctad/fraction2" }
+  | ["ctad", alias, src, v] => do
+    let a ← parseAlias alias
+    let init ← parseInit src v
+    let model := showLit showMade (ctadAlias a init)
+    -- no deduction takes place: the default arguments hold the initializer only if `int` does (and, for
+    -- static_integer<31>, if it is not the lowest `int`)
+    let fits := i32.inRange init.value && !(a == .staticInt && init.value == i32.lowest)
+    some { model, spec := some (holdsExactly res (init.value : Rat)), cls := if fits then "" else clsCtadDefault,
+           branch := s!"ctad/{alias}/{if src == "c" then "c" else "v"}" ++ (if fits then "" else "/default-too-narrow") }
   | ["mk", fn, "c", v] => do
     let v ← v.toInt?
     let m ← match fn with
